@@ -212,7 +212,7 @@ pub fn roundtrip_list(rep: &mut Report, bl: &BlockList, origin: &str) {
     let replay = || J::obj().set("origin", origin).set("blocks", format!("{:?}", blocks).chars().take(6000).collect::<String>());
     let written = mon::guard(|| {
         let mut buf = vec![];
-        metadata::write_blocks(&mut buf, bl.blocks()).map(|()| buf).map_err(|e| format!("{e:?}"))
+        metadata::write_blocks(&mut buf, bl.blocks()).map(|()| buf).map_err(|e| crate::api::show(&e))
     });
     let bytes = match written {
         Err(p) => {
@@ -228,7 +228,7 @@ pub fn roundtrip_list(rep: &mut Report, bl: &BlockList, origin: &str) {
     };
     rep.count("write_outcome", "ok");
     // reader must accept the writer's output and give back equal blocks
-    let back = mon::guard(|| metadata::read_blocks(Cursor::new(&bytes)).collect::<Result<Vec<Block>, _>>().map_err(|e| format!("{e:?}")));
+    let back = mon::guard(|| metadata::read_blocks(Cursor::new(&bytes)).collect::<Result<Vec<Block>, _>>().map_err(|e| crate::api::show(&e)));
     match back {
         Err(p) => rep.violation("panic", format!("read_blocks:{}", p.signature()), format!("{origin}: {} at {}", p.msg, p.location), replay().set("bytes", J::hex(&bytes[..bytes.len().min(20000)]))),
         Ok(Err(e)) => rep.violation("roundtrip", format!("written-but-unreadable:{}", err_name(&e)), format!("{origin}: write_blocks succeeded but the reader refuses its output: {e}"), replay()),
@@ -271,7 +271,7 @@ pub fn roundtrip_list(rep: &mut Report, bl: &BlockList, origin: &str) {
 /// bytes the reader accepts can be written again and re-read to an equal list
 pub fn reread_accepted(rep: &mut Report, bytes: &[u8], origin: &str) {
     rep.eval();
-    let first = mon::guard(|| metadata::read_blocks(Cursor::new(bytes)).collect::<Result<Vec<Block>, _>>().map_err(|e| format!("{e:?}")));
+    let first = mon::guard(|| metadata::read_blocks(Cursor::new(bytes)).collect::<Result<Vec<Block>, _>>().map_err(|e| crate::api::show(&e)));
     let blocks = match first {
         Err(p) => {
             rep.violation("panic", format!("read_blocks:{}", p.signature()), format!("{origin}: {} at {}", p.msg, p.location), J::obj().set("bytes", J::hex(&bytes[..bytes.len().min(20000)])));
@@ -287,7 +287,7 @@ pub fn reread_accepted(rep: &mut Report, bytes: &[u8], origin: &str) {
     let replay = || J::obj().set("origin", origin).set("bytes", J::hex(&bytes[..bytes.len().min(20000)]));
     let again = mon::guard(|| {
         let mut buf = vec![];
-        metadata::write_blocks(&mut buf, blocks.iter()).map(|()| buf).map_err(|e| format!("{e:?}"))
+        metadata::write_blocks(&mut buf, blocks.iter()).map(|()| buf).map_err(|e| crate::api::show(&e))
     });
     match again {
         Err(p) => rep.violation("panic", format!("write_blocks:{}", p.signature()), format!("{origin}: re-writing an accepted list panicked: {} at {}", p.msg, p.location), replay()),
@@ -295,7 +295,7 @@ pub fn reread_accepted(rep: &mut Report, bytes: &[u8], origin: &str) {
         Ok(Ok(b2)) => match metadata::read_blocks(Cursor::new(&b2)).collect::<Result<Vec<Block>, _>>() {
             Ok(rb) if rb == blocks => rep.nontrivial(fnv(bytes) ^ 0x5555),
             Ok(_) => rep.violation("roundtrip", "reread-differs", format!("{origin}: list changes across read -> write -> read"), replay()),
-            Err(e) => rep.violation("roundtrip", format!("rewritten-but-unreadable:{}", err_name(&format!("{e:?}"))), format!("{origin}: {e:?}"), replay()),
+            Err(e) => rep.violation("roundtrip", format!("rewritten-but-unreadable:{}", err_name(&crate::api::show(&e))), format!("{origin}: {e:?}"), replay()),
         },
     }
 }
@@ -330,7 +330,7 @@ fn rule_breaking_lists(rep: &mut Report, rng: &mut Rng) {
         rep.count("rule_case", name);
         let r = mon::guard(|| {
             let mut buf = vec![];
-            metadata::write_blocks(&mut buf, list.iter()).map(|()| buf).map_err(|e| format!("{e:?}"))
+            metadata::write_blocks(&mut buf, list.iter()).map(|()| buf).map_err(|e| crate::api::show(&e))
         });
         match r {
             Err(p) => rep.violation("panic", format!("write_blocks:{}", p.signature()), format!("{name}: {} at {}", p.msg, p.location), J::obj().set("case", name)),
@@ -347,6 +347,72 @@ fn rule_breaking_lists(rep: &mut Report, rng: &mut Rng) {
             Ok(Err(e)) => {
                 rep.count("rule_refusal", err_name(&e));
                 rep.nontrivial(hash_str(name));
+            }
+        }
+    }
+}
+
+/// a sink that counts instead of storing (a wrongly accepted huge block must not exhaust memory)
+struct CountSink(u64);
+impl std::io::Write for CountSink {
+    fn write(&mut self, b: &[u8]) -> std::io::Result<usize> {
+        self.0 += b.len() as u64;
+        Ok(b.len())
+    }
+    fn flush(&mut self) -> std::io::Result<()> {
+        Ok(())
+    }
+}
+
+/// the three fallible `BlockSize` constructors around and beyond the 24-bit limit: a size is
+/// accepted iff it fits 24 bits, and a PADDING block of an accepted size is written with exactly
+/// that many bytes (its self-reported size) - never a panic, never a different size
+fn block_size_constructors(rep: &mut Report) {
+    use flac_codec::metadata::BlockSize;
+    const MAX: u64 = (1 << 24) - 1;
+    let values: [u64; 16] = [0, 1, 255, 65536, MAX - 1, MAX, MAX + 1, MAX + 2, 1 << 25, 1 << 29, (1 << 29) + 3, 1 << 31, (1 << 32) - 1, 1 << 32, 1 << 40, u64::MAX];
+    for v in values {
+        let mut built: Vec<(&str, Option<BlockSize>)> = vec![];
+        built.push(("u64", BlockSize::try_from(v).ok()));
+        if let Ok(u) = usize::try_from(v) {
+            built.push(("usize", BlockSize::try_from(u).ok()));
+        }
+        if let Ok(u) = u32::try_from(v) {
+            built.push(("u32", BlockSize::try_from(u).ok()));
+        }
+        for (ctor, b) in built {
+            rep.eval();
+            rep.count("block_size_ctor", format!("{ctor}:{}", if b.is_some() { "accepted" } else { "refused" }));
+            let replay = || J::obj().set("case", "block-size-constructor").set("value", v).set("constructor", ctor);
+            match b {
+                None if v <= MAX => rep.violation("rules", format!("legal-block-size-refused:{ctor}"), format!("BlockSize::try_from({v}_{ctor}) refused a size that fits 24 bits"), replay()),
+                None => {}
+                Some(size) => {
+                    if v > MAX {
+                        rep.violation("rules", format!("oversize-block-size-accepted:{ctor}"), format!("BlockSize::try_from({v}_{ctor}) accepted a size beyond 24 bits (reads back as {})", u32::from(size)), replay());
+                    }
+                    if v > (1 << 33) {
+                        continue;
+                    }
+                    let list = vec![Block::Streaminfo(rand_streaminfo(&mut Rng::new(7))), Block::Padding(Padding { size })];
+                    let r = mon::guard(|| {
+                        let mut sink = CountSink(0);
+                        metadata::write_blocks(&mut sink, list.iter()).map(|()| sink.0).map_err(|e| crate::api::show(&e))
+                    });
+                    match r {
+                        Err(p) => rep.violation("panic", format!("write_blocks:{}", p.signature()), format!("PADDING of size {v} built through {ctor}: {} at {}", p.msg, p.location), replay()),
+                        Ok(Err(e)) if v <= MAX => rep.violation("rules", "legal-padding-refused", format!("PADDING of {v} bytes refused: {e}"), replay()),
+                        Ok(Err(_)) => {}
+                        Ok(Ok(total)) => {
+                            let written = total - 4 - 4 - 34 - 4;
+                            if written != v {
+                                rep.violation("sizes", "padding-written-size-differs", format!("PADDING built from size {v} ({ctor}) was written with {written} bytes"), replay());
+                            } else {
+                                rep.nontrivial(hash_str(&format!("bs{v}{ctor}")));
+                            }
+                        }
+                    }
+                }
             }
         }
     }
@@ -422,6 +488,10 @@ pub fn run_c11(ctx: &Ctx, rep: &mut Report) {
     let mut rng = ctx.rng(0xC11);
     if ctx.shard == 0 {
         rule_breaking_lists(rep, &mut rng);
+    }
+    if ctx.shard == 1 % ctx.nshards {
+        rep.case_begin("block size constructors");
+        block_size_constructors(rep);
     }
     let mut i = 0u64;
     while i < 300 || ctx.time_left() {
@@ -504,7 +574,7 @@ pub fn drive_metadata_bytes(rep: &mut Report, bytes: &[u8], origin: &str, class:
             Ok(Ok(())) => rep.count("accepted", name),
         }
     };
-    let obs = mon::observe(|| BlockList::read(Cursor::new(bytes)).map_err(|e| format!("{e:?}")));
+    let obs = mon::observe(|| BlockList::read(Cursor::new(bytes)).map_err(|e| crate::api::show(&e)));
     let (res, obs2) = match obs.result {
         Ok(Ok(bl)) => (Some(bl), mon::Observed { result: Ok(Ok(())), cpu_us: obs.cpu_us, peak_alloc: obs.peak_alloc, max_single_alloc: obs.max_single_alloc }),
         Ok(Err(e)) => (None, mon::Observed { result: Ok(Err(e)), cpu_us: obs.cpu_us, peak_alloc: obs.peak_alloc, max_single_alloc: obs.max_single_alloc }),
@@ -516,20 +586,20 @@ pub fn drive_metadata_bytes(rep: &mut Report, bytes: &[u8], origin: &str, class:
     check(rep, "BlockList::read", obs2);
     let obs = mon::observe(|| {
         for b in metadata::read_blocks(Cursor::new(bytes)) {
-            b.map_err(|e| format!("{e:?}"))?;
+            b.map_err(|e| crate::api::show(&e))?;
         }
         Ok(())
     });
     check(rep, "read_blocks", obs);
-    let obs = mon::observe(|| metadata::read_info(Cursor::new(bytes)).map(|_| ()).map_err(|e| format!("{e:?}")));
+    let obs = mon::observe(|| metadata::read_info(Cursor::new(bytes)).map(|_| ()).map_err(|e| crate::api::show(&e)));
     check(rep, "read_info", obs);
-    let obs = mon::observe(|| metadata::read_block::<_, VorbisComment>(Cursor::new(bytes)).map(|_| ()).map_err(|e| format!("{e:?}")));
+    let obs = mon::observe(|| metadata::read_block::<_, VorbisComment>(Cursor::new(bytes)).map(|_| ()).map_err(|e| crate::api::show(&e)));
     check(rep, "read_block<VorbisComment>", obs);
-    let obs = mon::observe(|| metadata::read_block::<_, Picture>(Cursor::new(bytes)).map(|_| ()).map_err(|e| format!("{e:?}")));
+    let obs = mon::observe(|| metadata::read_block::<_, Picture>(Cursor::new(bytes)).map(|_| ()).map_err(|e| crate::api::show(&e)));
     check(rep, "read_block<Picture>", obs);
-    let obs = mon::observe(|| metadata::read_block::<_, Cuesheet>(Cursor::new(bytes)).map(|_| ()).map_err(|e| format!("{e:?}")));
+    let obs = mon::observe(|| metadata::read_block::<_, Cuesheet>(Cursor::new(bytes)).map(|_| ()).map_err(|e| crate::api::show(&e)));
     check(rep, "read_block<Cuesheet>", obs);
-    let obs = mon::observe(|| metadata::read_block::<_, SeekTable>(Cursor::new(bytes)).map(|_| ()).map_err(|e| format!("{e:?}")));
+    let obs = mon::observe(|| metadata::read_block::<_, SeekTable>(Cursor::new(bytes)).map(|_| ()).map_err(|e| crate::api::show(&e)));
     check(rep, "read_block<SeekTable>", obs);
     if let Some(bl) = &parsed {
         rep.count("parsed_lists", class);
@@ -827,7 +897,7 @@ pub fn drive_cue_text(rep: &mut Report, total: u64, text: &str) {
     let replay = || J::obj().set("total", total).set("text", text);
     match obs.result {
         Err(p) => rep.violation("panic", format!("cue-parse:{}", p.signature()), format!("Cuesheet::parse: {} at {}", p.msg, p.location), replay()),
-        Ok(Err(e)) => rep.count("cue_parse", format!("{e:?}")),
+        Ok(Err(e)) => rep.count("cue_parse", crate::api::show(&e)),
         Ok(Ok(c)) => {
             rep.count("cue_parse", "accepted");
             rep.nontrivial(hash_str(&text) ^ total);
@@ -859,7 +929,7 @@ pub fn drive_image(rep: &mut Report, img: &[u8]) {
     rep.observe_cost(obs.cpu_us, obs.peak_alloc);
     match obs.result {
         Err(p) => rep.violation("panic", format!("picture-sniff:{}", p.signature()), format!("Picture::new: {} at {}", p.msg, p.location), J::obj().set("image", J::hex(&img))),
-        Ok(Err(e)) => rep.count("image_sniff", format!("{e:?}").split('(').next().unwrap_or("").to_string()),
+        Ok(Err(e)) => rep.count("image_sniff", crate::api::show(&e).split('(').next().unwrap_or("").to_string()),
         Ok(Ok(p)) => {
             rep.count("image_sniff", format!("accepted:{}", p.media_type));
             rep.nontrivial(fnv(&img));
